@@ -42,6 +42,8 @@ def check(c: Check):
     clause_c(c)
     clause_d(c)
     clause_e(c)
+    clause_f(c)
+    clause_g(c)
     from .common import sweep_records
     sweep_records(c, 'C10-rec', ['exactly_lib.util.process_execution', 'exactly_lib.util.file_utils', 'exactly_lib.impls.program_execution', 'exactly_lib.type_val_prims.program'], floor=8)
 
@@ -698,3 +700,108 @@ def clause_e(c: Check):
         used = {n.func.attr for n in ast.walk(f.node) if isinstance(n, ast.Call) and isinstance(n.func, ast.Attribute)
                 and n.func.attr.startswith('translate_for_')}
         c.expect(used == {want}, 'C10-e', 'executor/' + meth, '%s translates the result with %s' % (meth, sorted(used)), f.loc())
+
+
+# ---------------------------------------------------------------- f
+def clause_f(c: Check):
+    """CFGOBL: the std files of a child process never fall back on the defaults of StdFiles / StdOutputFiles (which
+    are the channels of the Exactly process itself): every construction under impls / execution gives every channel;
+    and the act executor with a transformation hands the given stdin and stderr on"""
+    ix, fo = c.ix, c.fo
+    n = 0
+    for cname, params in (('StdFiles', ('stdin_file', 'output_files')), ('StdOutputFiles', ('stdout_file', 'stderr_file'))):
+        cls = ix.cls(STD + ':' + cname)
+        for s in util.call_sites_of(ix, cls):
+            if not s.where.startswith(('exactly_lib.impls.', 'exactly_lib.execution.')):
+                continue
+            n += 1
+            b = util.ctor_call_args(ix, cls, s.node) or {}
+            missing = [p for p in params if p not in b]
+            c.expect(not missing, 'C10-f', '%s@%s' % (cname, s.where),
+                     '%s is constructed without %s: the child process gets the %s of the Exactly process itself' % (
+                         cname, missing, ' / '.join(m.split('_')[0] for m in missing)), s.loc)
+    c.floor('C10-f', 'constructions of StdFiles / StdOutputFiles for child processes', n, 10)
+    f = ix.func(PEX + ':_ExecutorWithTransformation._execute_command_w_stdout_to_file')
+
+    class H(Hooks):
+        def inline(self, fd, st):
+            return False
+
+    ok = False
+    for p in util.func_paths(ix, fo, f, H()):
+        for e in p.calls():
+            if isinstance(e.node.func, ast.Attribute) and e.node.func.attr == 'execute' and len(e.data['args']) == 3:
+                files = e.data['args'][2]
+                if isinstance(files, K) and isinstance(files.v, Record) and files.v.cls.name == 'StdFiles':
+                    sin = files.v.args.get('stdin_file')
+                    out = files.v.args.get('output_files')
+                    serr = out.args.get('stderr_file') if isinstance(out, Record) else None
+                    ok = util.attr_chain(sin)[1][-2:] == ('_atc_files', 'stdin') \
+                         and util.attr_chain(serr)[1][-3:] == ('_atc_files', 'output', 'err')
+    c.expect(ok, 'C10-f', '_ExecutorWithTransformation/stdin-and-stderr-handed-on',
+             'the act program with a transformation is not executed with the stdin and stderr given for the action to '
+             'check', f.loc())
+
+
+# ---------------------------------------------------------------- g
+def clause_g(c: Check):
+    """TS flush-before-hand-over: a text writer (`write` / `write_to` / `_write*` taking a `TextIO`) gets a file
+    object that may already hold buffered text (the preceding parts of a concatenated stdin). A child process writes
+    to the file *descriptor*, so before the file object is handed to anything but its own methods or another text
+    writer (delegation: a callee named write / write_to / _write*), `flush()` must have been called on it - else the
+    program's output lands before the text written earlier."""
+    ix, fo = c.ix, c.fo
+    writers = []
+    for name in ix.all_module_names():
+        if not name.startswith(('exactly_lib.impls.types.', 'exactly_lib.type_val_prims.string_source')):
+            continue
+        if 'TextIO' not in ix.text(name):
+            continue
+        m = ix.module(name)
+        for f in m.all_funcs:
+            if not (f.name in ('write', 'write_to') or f.name.startswith('_write')):
+                continue
+            outs = [p.arg for p in f.params if p.annotation is not None and unparse(p.annotation).split('.')[-1] == 'TextIO']
+            if len(outs) == 1 and not util.is_abstract_body(f):
+                writers.append((f, outs[0]))
+    c.floor('C10-g', 'text writers (write / write_to taking a TextIO)', len(writers), 12)
+
+    def is_writer_name(n: Optional[str]) -> bool:
+        return n is not None and (n in ('write', 'write_to', 'writelines') or n.startswith('_write') or n.startswith('write_'))
+
+    n_hand_over = 0
+    for f, out_name in sorted(writers, key=lambda x: x[0].key):
+        class H(Hooks):
+            loop_bound = 1
+
+            def inline(self, fd, st):
+                return False
+
+        def is_out(v) -> bool:
+            r = util.root_sym(v) if isinstance(v, Sym) else None
+            return isinstance(r, Sym) and isinstance(r.origin, tuple) and r.origin[:2] == ('param', out_name)
+
+        for p in util.func_paths(ix, fo, f, H()):
+            flushed = False
+            for e in p.calls():
+                args = list(e.data['args']) + list(e.data['kwargs'].values())
+                cv = e.data.get('callee_val')
+                recv = e.data.get('recv')
+                if recv is None and isinstance(cv, Sym) and cv.origin and cv.origin[0] == 'attr':
+                    recv = cv.origin[1]
+                attr = e.node.func.attr if isinstance(e.node.func, ast.Attribute) else (
+                    e.node.func.id if isinstance(e.node.func, ast.Name) else None)
+                if recv is not None and is_out(recv):
+                    if attr == 'flush':
+                        flushed = True
+                    continue
+                if any(is_out(a) for a in args):
+                    if is_writer_name(attr):
+                        continue   # delegation to another text writer: its own obligation
+                    n_hand_over += 1
+                    c.expect(flushed, 'C10-g', 'flush-before-hand-over/%s' % f.key,
+                             '%s hands its output file to %s without flushing it first: text written to the file '
+                             'object earlier (preceding stdin parts) ends up after what the process writes' % (
+                                 f.key.split(':')[-1], unparse(e.node.func)), '%s:%d' % (f.module.relpath, e.node.lineno))
+                    break
+    c.floor('C10-g', 'text writers that hand their output file on', n_hand_over, 3)
